@@ -86,26 +86,9 @@ fn ep_general(s: &mut S, r: &mut Rng, maxc: usize, maxr: usize, wt: &Weights, na
     if r.chance(1, 2) {
         fill(s, r, slot);
     }
-    // prelude: put the terminal into one of the mode / margin combinations the properties quantify over
-    if r.chance(1, 2) {
-        let t = gen::valid_margins(r, rr);
-        s.feed_str(slot, &t, true);
-    }
-    if r.chance(1, 3) {
-        s.feed_str(slot, "\x1b[?6h", true);
-    }
-    if r.chance(1, 5) {
-        s.feed_str(slot, "\x1b[?7l", true);
-    }
-    if r.chance(1, 6) {
-        s.feed_str(slot, "\x1b[4h", true);
-    }
+    prelude(s, r, slot);
     if r.chance(1, 8) {
         s.feed_str(slot, "\x1b[20h", true);
-    }
-    if r.chance(1, 6) {
-        let t = gen::sgr_small(r);
-        s.feed_str(slot, &t, true);
     }
     if r.chance(1, 8) {
         let t = gen::enter_alt(r);
@@ -214,6 +197,44 @@ fn ep_c01(s: &mut S, r: &mut Rng, maxc: usize, maxr: usize) {
 
 // ---------------------------------------------------------------------------------- C02
 
+fn prelude(s: &mut S, r: &mut Rng, slot: usize) {
+    let (_c, rr) = s.vt(slot).size();
+    if r.chance(1, 2) {
+        let t = gen::valid_margins(r, rr);
+        s.feed_str(slot, &t, true);
+    }
+    if r.chance(1, 3) {
+        s.feed_str(slot, "\x1b[?6h", true);
+    }
+    if r.chance(1, 5) {
+        s.feed_str(slot, "\x1b[?7l", true);
+    }
+    if r.chance(1, 6) {
+        s.feed_str(slot, "\x1b[4h", true);
+    }
+    if r.chance(1, 6) {
+        let t = gen::sgr_small(r);
+        s.feed_str(slot, &t, true);
+    }
+}
+
+/// cursor to a far / edge position
+fn far_cursor(r: &mut Rng, c: usize, rr: usize) -> String {
+    match r.n(5) {
+        0 => "\x1b[999;999H".to_string(),
+        1 => format!("\x1b[{};{}H", rr, c),
+        2 => format!("\x1b[{};1H", rr),
+        3 => "\x1b[?6l\x1b[999;1H".to_string(),
+        _ => format!("\x1b[{};{}H", r.range(1, rr), r.range(1, c)),
+    }
+}
+
+fn overflow_print(r: &mut Rng, c: usize) -> String {
+    let n = r.range(c, 2 * c + 2).min(40);
+    let ch = *r.pick(&['m', 'n', 'o', 'w']);
+    std::iter::repeat(ch).take(n).collect()
+}
+
 fn ep_c02(s: &mut S, r: &mut Rng, maxc: usize, maxr: usize) {
     s.episode("C02");
     s.log_view = true;
@@ -223,13 +244,48 @@ fn ep_c02(s: &mut S, r: &mut Rng, maxc: usize, maxr: usize) {
     if r.chance(1, 2) {
         fill(s, r, slot);
     }
+    prelude(s, r, slot);
     let wt = w(|x| {
         x.alt = 12;
         x.save = 8;
         x.print = 25;
         x.cursor = 12;
         x.modes = 6;
+        x.margins = 6;
     });
+    // the histories the property names: saved cursor outside a shrunken screen, resize while the
+    // alternate screen is showing and switching back afterwards, printing below the scroll region
+    if r.chance(1, 2) {
+        let (c, rr) = s.vt(slot).size();
+        let t = far_cursor(r, c, rr);
+        s.feed_str(slot, &t, true);
+        if r.chance(1, 2) {
+            let t = overflow_print(r, c);
+            s.feed_str(slot, &t, true);
+        }
+        let t = gen::save(r);
+        s.feed_str(slot, &t, true);
+        let t = if r.chance(1, 4) { gen::leave_alt(r) } else { gen::enter_alt(r) };
+        s.feed_str(slot, &t, true);
+        if r.chance(1, 2) {
+            let t = far_cursor(r, c, rr);
+            s.feed_str(slot, &t, true);
+            let t = gen::save(r);
+            s.feed_str(slot, &t, true);
+        }
+        let (nc, nr) = (r.range(1, c.max(2)), r.range(1, rr.max(2)));
+        s.resize(slot, nc, nr, true);
+        let k = r.range(0, 3);
+        tokens(s, r, slot, &wt, k, maxc, maxr, (1, 6));
+        if s.alive(slot) {
+            let t = if r.chance(1, 2) { gen::leave_alt(r) } else { gen::enter_alt(r) };
+            s.feed_str(slot, &t, true);
+            let t = gen::restore(r);
+            s.feed_str(slot, &t, true);
+            let t = overflow_print(r, nc);
+            s.feed_str(slot, &t, true);
+        }
+    }
     let n = r.range(5, 25);
     for _ in 0..n {
         if !s.alive(slot) {
@@ -239,7 +295,11 @@ fn ep_c02(s: &mut S, r: &mut Rng, maxc: usize, maxr: usize) {
             continue;
         }
         let (c, rr) = s.vt(slot).size();
-        let t = gen::token(r, &wt, c, rr);
+        let t = match r.n(12) {
+            0 => far_cursor(r, c, rr),
+            1 => overflow_print(r, c),
+            _ => gen::token(r, &wt, c, rr),
+        };
         if r.chance(1, 6) {
             s.feed_chars(slot, &t);
         } else {
